@@ -125,6 +125,34 @@ theorem missing_domain (v : Bytes) (h1 : v ≠ []) (h2 : v ≠ [0x00#8]) (b : By
 
 example : bytesCmp lowTerm [0x61#8] = .lt ∧ bytesCmp [0x61#8] highTerm = .lt := by decide
 
+/-- `missing_first_last` with its EXACT hypothesis as a decidable predicate (`keyInRange`: every present key
+strictly between `lowTerm` and `highTerm`), for one sort key and both argument positions: the order the
+replacement bytes produce is the property-level order `cmpProp1` (missing strictly first / last as
+requested, present values in byte order). The harness evaluates `keyInRange` on every present value. -/
+theorem missing_first_last_in_range (s : SortKey) (a b : Option Bytes)
+    (ha : ∀ v, a = some v → keyInRange v = true) (hb : ∀ v, b = some v → keyInRange v = true) :
+    cmpKeys [s] [keyOf s a] [keyOf s b] = cmpProp1 s a b :=
+  cmpKeys_eq_cmpProp1_aux s a b ha hb
+
+example : keyInRange [0x61#8] = true ∧ keyInRange [0x20#8, 0x01#8] = true := by decide
+
+/-- WITNESS: without the range hypothesis the statement is FALSE. A present empty value sorts BEFORE a
+missing one under asc + missing-first (and `[0x00]` ties with it); a present value of eleven `0xff` bytes
+sorts AFTER a missing one under asc + missing-last (and ten `0xff` bytes tie with it). The same holds on
+the real code: finding `sort-value-beyond-missing-marker`. -/
+theorem missing_first_last_fails_beyond_markers :
+    ¬ (∀ (s : SortKey) (a b : Option Bytes), cmpKeys [s] [keyOf s a] [keyOf s b] = cmpProp1 s a b) := by
+  intro h
+  have := h ⟨false, true⟩ none (some [])
+  revert this
+  decide
+
+example : cmpKeys [⟨false, true⟩] [keyOf ⟨false, true⟩ none] [keyOf ⟨false, true⟩ (some [])] = .gt ∧
+    cmpKeys [⟨false, true⟩] [keyOf ⟨false, true⟩ none] [keyOf ⟨false, true⟩ (some [0x00#8])] = .eq ∧
+    cmpKeys [⟨false, false⟩] [keyOf ⟨false, false⟩ none] [keyOf ⟨false, false⟩ (some (List.replicate 11 0xff#8))] = .lt ∧
+    cmpKeys [⟨true, true⟩] [keyOf ⟨true, true⟩ none] [keyOf ⟨true, true⟩ (some (List.replicate 11 0xff#8))] = .gt ∧
+    cmpKeys [⟨true, false⟩] [keyOf ⟨true, false⟩ none] [keyOf ⟨true, false⟩ (some [])] = .lt := by decide
+
 /-! ## The stores -/
 
 /-- `store_slice_spec` / `store_heap_spec`: on either store, `AddNotExceedingSize(d, k)` inserts `d` into
